@@ -105,3 +105,131 @@ let main () =
       print_string out; print_char '\n'; flush stdout
     done
   with End_of_file -> ()
+
+(* ------------------------------------------------------------------ PyLite: run the translated converter *)
+
+let hex_of s = String.concat "" (List.map (fun c -> Printf.sprintf "%02x" (Char.code c)) (explode s))
+let unhex h = String.init (String.length h / 2) (fun i -> Char.chr (int_of_string ("0x" ^ String.sub h (2 * i) 2)))
+
+let rec pos_of_int n = if n = 1 then XH else if n land 1 = 0 then XO (pos_of_int (n / 2)) else XI (pos_of_int (n / 2))
+let z_of_int n = if n = 0 then Z0 else if n > 0 then Zpos (pos_of_int n) else Zneg (pos_of_int (-n))
+
+(* reader over a string with a cursor *)
+type rd = { s : string; mutable i : int }
+let peek r = r.s.[r.i]
+let next r = let c = r.s.[r.i] in r.i <- r.i + 1; c
+let until_semi r =
+  let j = String.index_from r.s r.i ';' in
+  let t = String.sub r.s r.i (j - r.i) in r.i <- j + 1; t
+let rec rvalue r : value =
+  match next r with
+  | 'n' -> VNone | 'T' -> VBool true | 'F' -> VBool false
+  | 'i' -> VInt (z_of_int (int_of_string (until_semi r)))
+  | 's' -> VStr (explode (unhex (until_semi r)))
+  | 'l' -> let n = int_of_string (until_semi r) in VList (List.init n (fun _ -> rvalue r))
+  | 'u' -> let n = int_of_string (until_semi r) in VTuple (List.init n (fun _ -> rvalue r))
+  | 'g' -> let n = int_of_string (until_semi r) in VGen (List.init n (fun _ -> rvalue r))
+  | 'o' -> VStdout
+  | c -> failwith (Printf.sprintf "bad value tag %c" c)
+(* List.init evaluates in order for small n? not guaranteed: do it explicitly *)
+let rec rvalues r n = if n = 0 then [] else let v = rvalue_seq r in v :: rvalues r (n - 1)
+and rvalue_seq r : value =
+  match next r with
+  | 'n' -> VNone | 'T' -> VBool true | 'F' -> VBool false
+  | 'i' -> VInt (z_of_int (int_of_string (until_semi r)))
+  | 's' -> VStr (explode (unhex (until_semi r)))
+  | 'l' -> let n = int_of_string (until_semi r) in VList (rvalues r n)
+  | 'u' -> let n = int_of_string (until_semi r) in VTuple (rvalues r n)
+  | 'g' -> let n = int_of_string (until_semi r) in VGen (rvalues r n)
+  | 'o' -> VStdout
+  | c -> failwith (Printf.sprintf "bad value tag %c" c)
+
+let rec wvalue b (v : value) =
+  match v with
+  | VNone -> Buffer.add_char b 'n'
+  | VBool true -> Buffer.add_char b 'T' | VBool false -> Buffer.add_char b 'F'
+  | VInt z -> Buffer.add_string b (Printf.sprintf "i%d;" (int_of_z z))
+  | VStr s -> Buffer.add_string b ("s" ^ hex_of (implode s) ^ ";")
+  | VList l -> Buffer.add_string b (Printf.sprintf "l%d;" (List.length l)); List.iter (wvalue b) l
+  | VTuple l -> Buffer.add_string b (Printf.sprintf "u%d;" (List.length l)); List.iter (wvalue b) l
+  | VGen l -> Buffer.add_string b (Printf.sprintf "g%d;" (List.length l)); List.iter (wvalue b) l
+  | VDict _ -> Buffer.add_char b 'd'
+  | VFile (_, _) -> Buffer.add_char b 'h'
+  | VStdout -> Buffer.add_char b 'o'
+  | VStderr -> Buffer.add_char b 'e'
+  | VLogger -> Buffer.add_char b 'L'
+
+let rstrs r = let n = int_of_string (until_semi r) in
+  let rec go k = if k = 0 then [] else let h = until_semi r in explode (unhex h) :: go (k - 1) in go n
+
+let rworld r : world =
+  let disabled = (next r = 'T') in
+  let closed = (next r = 'T') in
+  let nf = int_of_string (until_semi r) in
+  let rec files k = if k = 0 then [] else
+      let p = explode (unhex (until_semi r)) in let ls = rstrs r in (p, ls) :: files (k - 1) in
+  let fs = files nf in
+  let ok = rstrs r in
+  let stdin_ = rstrs r in
+  { w_disabled = disabled; w_stdout = []; w_stdout_closed = closed; w_stderr = []; w_files = fs;
+    w_parent_ok = ok; w_stdin = stdin_ }
+
+let wstrs b l = Buffer.add_string b (Printf.sprintf "%d;" (List.length l));
+  List.iter (fun s -> Buffer.add_string b (hex_of (implode s) ^ ";")) l
+
+let wworld b (w : world) =
+  Buffer.add_char b (if w.w_disabled then 'T' else 'F');
+  Buffer.add_char b (if w.w_stdout_closed then 'T' else 'F');
+  Buffer.add_string b (Printf.sprintf "%d;" (List.length w.w_files));
+  List.iter (fun (p, ls) -> Buffer.add_string b (hex_of (implode p) ^ ";"); wstrs b ls) w.w_files;
+  wstrs b w.w_stdout; wstrs b w.w_stderr
+
+(* conv table: count; then entries value full kind *)
+let rconv r =
+  let n = int_of_string (until_semi r) in
+  let rec go k = if k = 0 then [] else
+      let v = rvalue_seq r in
+      let f = rvalue_seq r in
+      let res = match next r with
+        | 'k' -> Inl (explode (unhex (until_semi r)))
+        | 'p' -> Inr ExParse
+        | _ -> Inr (ExOther (explode "Exception")) in
+      (v, f, res) :: go (k - 1) in
+  let tbl = go n in
+  fun (g : value) (f : value) ->
+    let key v = let b = Buffer.create 16 in wvalue b v; Buffer.contents b in
+    let kg = key g and kf = key f in
+    match List.find_opt (fun (v, f', _) -> key v = kg && key f' = kf) tbl with
+    | Some (_, _, r) -> r
+    | None -> Inr (ExOther (explode "Unlisted"))
+
+let wexn b = function
+  | ExParse -> Buffer.add_string b "ExParse" | ExValue -> Buffer.add_string b "ExValue"
+  | ExExit -> Buffer.add_string b "ExExit" | ExOther t -> Buffer.add_string b ("ExOther:" ^ implode t)
+
+let () =
+  register "pycall" (function
+    | [fn; args; world; convt; isgen] ->
+        let a = rvalue_seq { s = args; i = 0 } in
+        let pos = (match a with VList l -> l | _ -> failwith "args") in
+        let w = rworld { s = world; i = 0 } in
+        let conv = rconv { s = convt; i = 0 } in
+        let fuel = nat_of_int 200 in
+        let b = Buffer.create 256 in
+        if isgen = "1" then begin
+          let ((o, ys), w') = call_gen conv program fuel (explode fn) pos [] w in
+          (match o with
+           | ONormal -> Buffer.add_string b "normal\t"
+           | OReturn v -> Buffer.add_string b "return\t"
+           | ORaise e -> Buffer.add_string b "raise:"; wexn b e; Buffer.add_char b '\t');
+          wvalue b (VList ys); Buffer.add_char b '\t'; wworld b w'
+        end else begin
+          let (r, w') = call conv program fuel (explode fn) pos [] w in
+          (match r with
+           | Inl v -> Buffer.add_string b "ok\t"; wvalue b v
+           | Inr e -> Buffer.add_string b "raise:"; wexn b e; Buffer.add_string b "\tn");
+          Buffer.add_char b '\t'; wworld b w'
+        end;
+        Buffer.contents b
+    | _ -> "BADARGS");
+  register "pystrip" (function [s] -> escape (implode (py_strip (explode s))) | _ -> "BADARGS")
